@@ -5,6 +5,8 @@
       verifies, in the scratch worktree: the change compiles, the unedited lib suite passes
       with it, the demonstration fails with it and passes without it; then stores
       /verif/seeded/<name>/{patch.diff, demo.rs, meta.json}.
+  seeded_tool.py add-benign <worktree> <property> <name> "<what changes>"   (property-preserving change)
+  seeded_tool.py run-benign [<name> ...]     every quick check must exit 0 on these
   seeded_tool.py run [<name> ...] [--tier quick|thorough] [--all-props]
       applies each stored patch to a scratch copy of /repo/src (never to /repo), runs the
       matching check against it and records whether it was detected in meta.json.
@@ -67,6 +69,52 @@ def add(wt, prop, name, demo, needs):
     return 0
 
 
+BENIGN = ROOT + "/benign"
+
+
+def add_benign(wt, prop, name, what):
+    """A change that keeps the property: store the patch and the agent's two tests."""
+    env = dict(os.environ, CARGO_NET_OFFLINE="true", CARGO_TARGET_DIR=wt + "/target")
+    diff = sh("git diff -- src", cwd=wt).stdout
+    assert diff.strip(), "no src change in worktree"
+    lib = sh("cargo test --offline --lib", cwd=wt, env=env)
+    lib_line = next((l for l in lib.stdout.splitlines() if l.startswith("test result:")), "")
+    tests = sorted(f for f in os.listdir(wt + "/tests") if f.endswith(".rs")) if os.path.isdir(wt + "/tests") else []
+    results = {}
+    for t in tests:
+        stem = t[:-3]
+        feat = "--features verif" if "verif" in open(f"{wt}/tests/{t}").read() else ""
+        r = sh(f"cargo test --offline {feat} --test {stem}", cwd=wt, env=env)
+        results[stem] = {"exit_with_change": r.returncode, "tail": r.stdout[-300:]}
+    print(f"{name}: lib: {lib_line}; tests with change: " + ", ".join(f"{k}={v['exit_with_change']}" for k, v in results.items()))
+    if "70 passed; 0 failed" not in lib_line:
+        print("NOT STORED (lib suite)")
+        return 1
+    d = f"{BENIGN}/{name}"
+    os.makedirs(d, exist_ok=True)
+    open(d + "/patch.diff", "w").write(diff)
+    for t in tests:
+        shutil.copy(f"{wt}/tests/{t}", d + "/" + t)
+    meta = {"name": name, "property": prop, "keeps_property": True, "what_changes": what,
+            "origin": "independent sub-agent asked for a property-preserving change that an over-strict checker might report",
+            "base_commit": sh("git rev-parse HEAD", cwd=wt).stdout.strip(),
+            "confirmed": {"lib_suite_with_change": lib_line, "tests_with_change": results}, "detection": {}}
+    json.dump(meta, open(d + "/meta.json", "w"), indent=1)
+    print("stored", d)
+    return 0
+
+
+def run_benign(names):
+    """Every quick check must exit 0 on a property-preserving change."""
+    global SEEDED
+    saved = SEEDED
+    SEEDED = BENIGN
+    try:
+        return run(names, "quick", True)
+    finally:
+        SEEDED = saved
+
+
 def run(names, tier, all_props):
     scratch = "/tmp/nsim-seeded"
     results = []
@@ -109,6 +157,10 @@ def run(names, tier, all_props):
 if __name__ == "__main__":
     if sys.argv[1] == "add":
         sys.exit(add(*sys.argv[2:7]))
+    elif sys.argv[1] == "add-benign":
+        sys.exit(add_benign(*sys.argv[2:6]))
+    elif sys.argv[1] == "run-benign":
+        sys.exit(run_benign(sys.argv[2:]))
     elif sys.argv[1] == "run":
         args = sys.argv[2:]
         tier = "quick"
